@@ -21,6 +21,6 @@ Task: produce {n} DIFFERENT, independent source changes ("mutants") to the proje
 For each mutant i (1..{n}):
  1. Start from a clean tree (`git -C {wt} checkout -- . && git -C {wt} clean -fd -e target -e mutants`).
  2. Make the change; check it compiles and that the test suite passes: `cd {wt} && cargo test --workspace --no-fail-fast --offline 2>&1 | tail -30` (all tests must pass; the first build takes a few minutes).
- 3. Write a demonstration as an integration test file `{wt}/rscel/tests/demo_{pid}_<i>.rs` (or under extensions/to_sql/tests/ if the change is there) using only the public API (e.g. `rscel::{{CelContext, BindContext, Program, CelValue}}`; `ctx.add_program_str("main", src)`, `ctx.exec("main", &bindings)`), which FAILS with the change and PASSES without it. Verify both: run it with the change (`cargo test --offline -p rscel --test demo_{pid}_<i>`), then `git stash` the source change (keep the demo file), run it again to see it pass, then restore.
+ 3. Write a demonstration as an integration test file `{wt}/rscel/tests/demo_{pid}_<i>.rs` (or under extensions/to_sql/tests/ if the change is there) using only the public API (e.g. `rscel::{{CelContext, BindContext, Program, CelValue}}`; `ctx.add_program_str("main", src)`, `ctx.exec("main", &bindings)`), which FAILS with the change and PASSES without it. Verify both: run it with the change (`cargo test --offline -p rscel --test demo_{pid}_<i>`), then take the source change out WITHOUT `git stash` (the stash is shared by all worktrees of this repository and other people use it concurrently): `git diff -- . ':!*/tests/*' > /tmp/<your-mutant>.diff && git apply -R /tmp/<your-mutant>.diff`, run the demo again to see it pass, then `git apply /tmp/<your-mutant>.diff` to restore. Never use `git stash` in this worktree.
  4. Save into `{wt}/mutants/{pid}_<i>/`: `patch.diff` (output of `git diff` of the source change only, NOT including the demo test, applicable with `git apply` from the repository root), `demo.rs` (the demonstration test file), and `notes.txt` (one paragraph: what was changed, what specific input/sequence is needed for it to manifest, commands you ran and their outcome).
 Finally restore the worktree to a clean state (keep the `mutants/` directory, which is untracked) and reply with a short summary listing each mutant, the file/function changed, and the triggering input. Keep the patches small (a few lines each).""")
